@@ -2,6 +2,7 @@
 from ..core import rng_for, rand_digits, M64, ndig
 from ..oracles import cmd_signs, cmd_usigns, cmd_abssub, cmd_frombu, cmd_ident, cmd_signops
 
+THOROUGH_SEEDS = 40   # the thorough tier repeats its staged workload over this many derived seeds
 RULE = ('values 0, +-1, single- and multi-digit, values built with redundant high zero words; every (Sign, magnitude) pair incl. '
         'inconsistent ones (NoSign with non-zero magnitude, Plus/Minus with zero, zero with redundant words); abs_sub over the '
         'six sign/order cases, equality and zero; Sign negation and multiplication tables exhaustively (3 and 9 cases); zero() '
